@@ -160,8 +160,10 @@ def run(ctx, rep):
         rep.check("C16.sync", "second sync byte test is (byte >> 1) == 0b1111100", len(shr) == 1 and len(eqs) == 1, loc_of(rb))
         # the checksum reader starts with the re-inserted 0xFF
         prom_ff = False
-        for pb in F.by_path.get(rb.path, []):
-            if pb.promoted is not None:
+        owner = rb.path.rsplit("::", 1)[0]
+        for pb in F.bodies:
+            # promoted constants of the function, or of a helper of the same impl that was inlined into it
+            if pb.promoted is not None and (pb.path == rb.path or (pb.path.rsplit("::", 1)[0] == owner and F.body(pb.path) is None)):
                 for bl in pb.blocks:
                     for st in bl["s"]:
                         if any(op_int(o) == 0xFF for o in rv_operands(st["rv"])):
